@@ -114,9 +114,13 @@ var gitCmd = &cobra.Command{
 func getCommitMessage() string {
 	historyArgs := []string{"log", "--pretty=format:[%h] %aN %ad %s", "--date=short", "--numstat", "--reverse", "--summary"}
 	cmd := exec.Command("git", historyArgs...)
-	out, err := cmd.CombinedOutput()
+	// the log is what git writes to its standard output; its warnings go to standard error
+	out, err := cmd.Output()
 	if err != nil {
 		fmt.Println(string(out))
+		if exitErr, ok := err.(*exec.ExitError); ok {
+			fmt.Println(string(exitErr.Stderr))
+		}
 		log.Fatalf("Cmd.Run() failed with %s\n", err)
 	}
 
